@@ -35,7 +35,7 @@ class Hang(BaseException):
 
 class TState:
     __slots__ = ('name', 'state', 'deadline', 'on', 'sem', 'woken', 'timed_out', 'thread',
-                 'prio', 'steps')
+                 'prio', 'steps', 'last_where')
 
     def __init__(self, name):
         self.name = name
@@ -48,6 +48,7 @@ class TState:
         self.thread = None
         self.prio = 0
         self.steps = 0
+        self.last_where = None
 
 
 # --------------------------------------------------------------------------- strategies
@@ -167,6 +168,8 @@ class Ctl:
         self.decisions = []          # [options, chosen, current] for multi-choice decisions
         self.steps = 0
         self.max_steps = max_steps
+        self.idle_spins = 0
+        self.spun = set()
         self.max_now = 3600.0          # virtual seconds; every scenario of the harness ends long before
         self.zero_iters = 0            # event-loop iterations that found ready callbacks (no virtual time passes)
         self.zero_at_tick = 0
@@ -262,6 +265,38 @@ class Ctl:
         while True:
             names = [t.name for t in self.threads.values() if t.state == READY]
             if names:
+                # Spin-waits: when every runnable thread has been spinning with time.sleep(0) (and nothing else became
+                # runnable in between), what they wait for can only be brought about by the passage of time (threads in
+                # timed waits).  In reality time passes while they spin: advance the virtual clock.
+                if where[0] == 'sleep0' and cur is not None:
+                    self.spun.add(cur.name)
+                if all(n in self.spun for n in names):
+                    if where[0] == 'sleep0':
+                        self.idle_spins += 1
+                        timed = [t for t in self.threads.values() if t.state in (IDLE, BLOCKED) and t.deadline is not None]
+                        if self.idle_spins > 50 and timed:
+                            to = min(t.deadline for t in timed)
+                            if to > self.max_now:
+                                self.log('Hang', why='horizon', thr=sorted(names))
+                                self._end('hang')
+                                return None
+                            if to > self.now:
+                                self.now = to
+                                self.steps_at_tick = self.steps
+                                self.zero_at_tick = self.zero_iters
+                                self.log('Tick')
+                            for t in timed:
+                                if t.deadline <= self.now:
+                                    t.state = READY
+                                    t.timed_out = True
+                                    t.deadline = None
+                            self.idle_spins = 0
+                            self.spun.clear()
+                            continue
+                else:
+                    self.idle_spins = 0
+                    self.spun.clear()
+            if names:
                 names.sort()
                 if len(names) == 1:
                     return self.threads[names[0]]
@@ -317,6 +352,7 @@ class Ctl:
         """Give up the baton according to me.state; returns when me is granted again."""
         with self.mu:
             self.steps += 1
+            me.last_where = where[0]
             if self.steps - self.steps_at_tick > self.max_steps:
                 self.log('Hang', why='spin', thr=[me.name])
                 self._end('hang')
